@@ -259,3 +259,26 @@ Print Assumptions C20_henon_R.
 Print Assumptions C20_narma.
 Print Assumptions C20_narma_generic.
 Print Assumptions C20_narma_prefix_refuted.
+
+(* ================================================================================================================ *)
+(* Tie (T): logistic_map, henon_map and narma as translated on this run from the current source text of datasets/_chaos.py
+   (coq/gen/Gen_maps.v: the arrays are filled element by element inside `for i in range(a, b)`, exactly as written) ARE the models
+   the theorems above are about, for every Num instance.  (n >= 1: for n = 0 the source raises IndexError on X[0] = x0.)        *)
+From RV Require Import base.GenPrelude gen.Gen_maps proofs.Gen_maps_eq.
+
+Theorem C20_generated_logistic_is_model {F : Type} `{Num F} (n : nat) (r x0 : F) : 1 <= n ->
+  option_map (map (fun x => [x])) (GenMaps.logistic_map n r x0) = logistic_map n r x0.
+Proof. exact (gen_logistic_eq n r x0). Qed.
+
+Theorem C20_generated_henon_is_model {F : Type} `{Num F} (n : nat) (a b x y : F) : 1 <= n ->
+  Some (GenMaps.henon_map n a b [x; y]) = henon_map n a b x y.
+Proof. exact (gen_henon_eq n a b x y). Qed.
+
+Theorem C20_generated_narma_is_model {F : Type} `{Num F} (n order : nat) (a1 a2 b c : F) (x0 u : list F) :
+  GenMaps.narma n order a1 a2 b c x0 u = skipn order (narma_array n order a1 a2 b c x0 u)
+  /\ narma n order a1 a2 b c x0 u = map (fun v => [v]) (GenMaps.narma n order a1 a2 b c x0 u).
+Proof. exact (gen_narma_eq n order a1 a2 b c x0 u). Qed.
+
+Print Assumptions C20_generated_logistic_is_model.
+Print Assumptions C20_generated_henon_is_model.
+Print Assumptions C20_generated_narma_is_model.
